@@ -114,6 +114,8 @@ pub enum Submit {
 	MixedMaturityCoinbases,
 	/// spends outputs of two different pooled transactions (a child with two parents in the pool)
 	DependentTwoParents,
+	/// a transaction that sits in the stempool is broadcast (what happens when its embargo expires)
+	FluffStemmed,
 }
 
 #[derive(Serialize, Deserialize, Clone, Debug, PartialEq)]
@@ -513,6 +515,17 @@ impl<'w> PoolSim<'w> {
 					self.make_spend(&[x], 1, Self::plain_fee(1, 1), None, &mut rng)
 				}
 			}
+			Submit::FluffStemmed => {
+				let stemmed = self.pool.stempool.all_transactions();
+				if stemmed.is_empty() {
+					None
+				} else {
+					let t = rng.pick(&stemmed).clone();
+					expect = Some(true);
+					self.probe("stem_tx_fluffed");
+					Some(t)
+				}
+			}
 			Submit::DependentTwoParents => {
 				let used = self.pool_inputs();
 				let mut per_tx: Vec<OutInfo> = vec![];
@@ -714,7 +727,7 @@ impl<'w> PoolSim<'w> {
 			Some(t) => t,
 			None => return Ok("skipped".into()),
 		};
-		let stem = stem && *kind != Submit::AggregatedUnderFee;
+		let stem = stem && *kind != Submit::AggregatedUnderFee && *kind != Submit::FluffStemmed;
 		let over_capacity = self.pool.txpool.size() >= self.pool.config.max_pool_size;
 		let res = self.pool.add_to_pool(TxSource::Broadcast, tx.clone(), stem, &header);
 		let cls = match &res {
@@ -842,7 +855,7 @@ pub fn gen_ops(rng: &mut SimRng, thorough: bool) -> Vec<Op> {
 	for _ in 0..n {
 		let k = rng.below(100);
 		let op = if k < 55 {
-			let kind = match rng.below(29) {
+			let kind = match rng.below(31) {
 				0..=6 => Submit::Valid,
 				7 | 8 => Submit::Dependent,
 				9 | 10 => Submit::Conflict,
@@ -861,7 +874,8 @@ pub fn gen_ops(rng: &mut SimRng, thorough: bool) -> Vec<Op> {
 				24 => Submit::ShiftedUnderpay,
 				25 => Submit::AggregatedUnderFee,
 				26 => Submit::MixedMaturityCoinbases,
-				_ => Submit::DependentTwoParents,
+				27 => Submit::DependentTwoParents,
+				_ => Submit::FluffStemmed,
 			};
 			Op::Submit { kind, stem: rng.chance(1, 4), r: rng.next_u64() }
 		} else if k < 70 {
